@@ -152,7 +152,7 @@ Section Route.
     set (R := fun t => rec (m_insert (join_dot rest) (Scalar n) t)).
     assert (forall t, WS t -> compatD (denm t) rest ->
                       WS (R t) /\ Permutation (denm (R t)) ((rest, n) :: denm t)) as HR.
-    { intros t Wt Ct. unfold R. rewrite <- Er at 2. apply Hrec; [exact Wt|exact Wr|rewrite Er; exact Ld|rewrite Er; exact Ct]. }
+    { intros t Wt Ct. unfold R. pose proof (Hrec t (join_dot rest) n Wt Wr) as Hr. rewrite Er in Hr. exact (Hr Ld Ct). }
     destruct (HR [] WS_nil (compat_nil rest)) as [WR0 PR0]. rewrite denm_nil in PR0.
     destruct c as [|c0 c1].
     - (* the wildcard is the first segment: entry = the node itself *)
